@@ -188,6 +188,24 @@ def run(ctx):
         ctx.ok('R-ITERORDER', 'addVariable signature', 'src/PseudoNetCDF/%s Pseudo2NetCDF.addVariable' % RP, 'createVariable(k, typecode, pvar.dimensions, ...)')
     else:
         ctx.violation(Finding('R-ITERORDER', RP, 'Pseudo2NetCDF.addVariable', api.stmt_of(cvc[0]) if cvc else av, 'the disk variable is not defined with the source name, type code and dimension tuple'))
+    # ---- R-VERBATIM: attribute values and the type code reach the disk file unchanged
+    from .. import lints
+    ctx.rule('R-VERBATIM', 'attribute values and the variable type code are passed to the disk file without being rewritten')
+    for qn, nm, pred, what in (
+            ('Pseudo2NetCDF.addVariableProperties', 'value', lambda d: norm(d.value).startswith('getattr(pvar,'), 'variable attribute value'),
+            ('Pseudo2NetCDF.addGlobalProperties', 'value', lambda d: norm(d.value).startswith('getattr(pfile,'), 'global attribute value'),
+            ('Pseudo2NetCDF.addVariable', 'typecode', lambda d: norm(d.value) in ('pvar.typecode()', 'pvar[...].dtype.char'), 'variable type code')):
+        f4 = mod.func(qn)
+        re_ = lints.verbatim(f4, nm, pred)
+        w4 = 'src/PseudoNetCDF/%s %s' % (RP, qn)
+        if re_ is None:
+            raise AnalysisError('anchor vanished: definition of %s in %s' % (nm, qn))
+        if re_:
+            for d in re_:
+                ctx.violation(Finding('R-VERBATIM', RP, qn, d, 'the %s read from the source is rewritten (%s) before it is written: the saved file does not '
+                                      'carry the same value/type as the source' % (what, norm(d)[:70])))
+        else:
+            ctx.ok('R-VERBATIM', '%s:%s' % (qn, nm), w4, '%s passed through unchanged (only the bool->int8 fallback inside except TypeError)' % what)
     # ---- the converter never writes its source (shared with C05 R-QMUT)
     from .c05 import _qmut_scan
     nq = 0
